@@ -24,6 +24,18 @@ theorem reduce_machine_sorted (comb : Int → Int → Int) (hc : ∀ a b, comb a
 
 example : run (· + ·) 10 [[(1, 1), (4, 4)], [], [(1, 10), (2, 2), (4, 40)]] = [(1, 11), (2, 2), (4, 44)] := by decide
 
+/-- **combine, spill, reduce-merge — the machines composed**: however a Reduce's input is cut into segments (by producer
+task, spill threshold, machine combiner), folding each segment (`foldMap`, what a combining frame holds — `C09t`) and
+running the reduce-merge machine over the folded runs yields the fold of the whole input. -/
+theorem combine_then_reduce_machine (comb : Int → Int → Int) (hc : ∀ a b, comb a b = comb b a)
+    (ha : ∀ a b c, comb (comb a b) c = comb a (comb b c)) (segs : List (List KV)) :
+    run comb ((segs.map (foldMap comb)).flatten.length + 1) (segs.map (foldMap comb)) = foldMap comb segs.flatten := by
+  rw [reduce_machine_spec comb hc ha]
+  · exact spill_runs_spec comb hc ha segs
+  · intro s hs
+    obtain ⟨seg, _, rfl⟩ := List.mem_map.mp hs
+    exact foldMap_strictSorted comb seg
+
 /-! ## the plain merge reader as it runs (`NewMergeReader`, sortio/sort.go:161-222)
 
 `mrun choose` emits the row under *a* cursor whose key is least and advances that cursor; which of several equal cursors
@@ -38,6 +50,26 @@ theorem merge_machine_spec (choose : List (List KV) → Nat) (hch : ∀ ss, minK
 theorem merge_machine_leftmost (ss : List (List KV)) (hs : AllSorted ss) :
     (mrun leftmost ss.flatten.length ss).Perm ss.flatten ∧ Sorted (mrun leftmost ss.flatten.length ss) :=
   merge_machine_spec leftmost leftmost_legal ss hs
+
+/-- **external sort — sort runs, spill, merge — composed**: however the input is cut into runs (spill sizes, canary), sorting
+each run and running the merge machine over them, with any legal heap behaviour, yields the input's rows sorted by key -/
+theorem sort_runs_then_merge_machine (choose : List (List KV) → Nat)
+    (hch : ∀ ss, minKey ss ≠ none → Legal ss (choose ss)) (runs : List (List KV)) :
+    let out := mrun choose (runs.map sortKV).flatten.length (runs.map sortKV)
+    out.Perm runs.flatten ∧ Sorted out := by
+  have hs : AllSorted (runs.map sortKV) := by
+    intro s hs
+    obtain ⟨r, _, rfl⟩ := List.mem_map.mp hs
+    exact sortKV_sorted r
+  have hflat : ∀ rs : List (List KV), (rs.map sortKV).flatten.Perm rs.flatten := by
+    intro rs
+    induction rs with
+    | nil => exact List.Perm.refl _
+    | cons r rs ih =>
+      simp only [List.map_cons, List.flatten_cons]
+      exact List.Perm.append (sortKV_perm r) ih
+  obtain ⟨hp, hso⟩ := merge_machine_spec choose hch (runs.map sortKV) hs
+  exact ⟨hp.trans (hflat runs), hso⟩
 
 example : mrun leftmost 6 [[(1, 1), (4, 4)], [], [(1, 10), (2, 2), (4, 40)]] = [(1, 1), (1, 10), (2, 2), (4, 4), (4, 40)] := by
   decide
